@@ -5,7 +5,7 @@
 export GOFLAGS=-mod=mod GOPROXY=off GOSUMDB=off GOTOOLCHAIN=local
 export VERIF_EVIDENCE_DIR=/verif/.build/evidence-of-broken-trees
 D=/verif/.build/mutsweep
-ORDER="C19 C07 C17 C08 C03 C18 C02 C05 C09 C04 C06 C16 C15 C01 C20 C11 C13 C14 C12 C10"
+ORDER="C19 C07 C17 C08 C03 C18 C05 C09 C01 C04 C06 C02 C16 C15 C20 C11 C13 C14 C12 C10"
 first=${1:-1}; last=${2:-99999}
 for m in $(ls $D | grep -E '^[0-9]+$'); do
   n=$((10#$m)); [ $n -lt $first ] && continue; [ $n -gt $last ] && continue
